@@ -4,6 +4,7 @@ import BiotiteModel.Proofs.C06TableLooped
 import BiotiteModel.Proofs.C06TableSingle
 import BiotiteModel.Proofs.C06Multiline
 import BiotiteModel.Proofs.C06File
+import BiotiteModel.Proofs.C06Expected
 import BiotiteModel.Proofs.C06Containers
 import BiotiteModel.Gen.C06
 /-!
@@ -502,6 +503,191 @@ theorem C06_multiline_trailing_blank_defect :
 /-- single-line value with both quote characters: trailing blank lost -/
 theorem C06_both_quotes_trailing_blank_defect :
     rt2 ['a', q1, q2, ' '] = .ok (['c'], [(['k'], [['a', q1, q2], ['p']])]) := by decide
+
+/-! ## Pass 7: more of the source regenerated, as proof obligations
+
+`Gen/C06.lean` now also holds, for each of the 99 anchored functions of cif.py / component.py / bcif.py, a
+fingerprint read with `ast` (default arguments, string and integer literals, comparison and boolean operators,
+raised exception classes, called helpers — all in source order) and the literals the model hard-codes. -/
+
+/-- **Reader literals.**  The prefixes, first characters, separators and slice positions the reader functions
+of the current source use are those of the model (`sData`, `sLoop`, `parseDataBlockName`, `parseCategoryName`,
+`isEmptyLine`, `toSingle`, `splitOneLine`/`splitQuoted`). -/
+theorem C06_gen_reader_consts :
+    Gen.C06.dataPrefix.toList = sData ∧ Gen.C06.dataSlice = sData.length ∧
+    (∀ l, parseDataBlockName l = if sData.isPrefixOf l then some (l.drop Gen.C06.dataSlice) else none) ∧
+    Gen.C06.loopPrefix.toList = sLoop ∧
+    Gen.C06.catNameFirst = "_" ∧ Gen.C06.catNameSep = "." ∧ Gen.C06.catNameIndex = 0 ∧ Gen.C06.catNameSliceStart = 1 ∧
+    Gen.C06.commentChar = "#" ∧ Gen.C06.semiChar = ";" ∧ Gen.C06.joinSep = "\n" ∧ Gen.C06.splitSemi = ";" ∧
+    Gen.C06.splitQ1.toList = [q1] ∧ Gen.C06.splitQ2.toList = [q2] ∧ Gen.C06.splitQ1a = Gen.C06.splitQ1 ∧
+    Gen.C06.splitQ2a = Gen.C06.splitQ2 ∧ Gen.C06.partitionSep = " " ∧ Gen.C06.quotedMinLen = 1 := by
+  refine ⟨by decide, by decide, fun l => rfl, by decide, rfl, rfl, rfl, rfl, rfl, rfl, rfl, rfl, by decide, by decide, rfl, rfl, rfl, rfl⟩
+
+/-- **Writer literals.**  Key lines, padding, the `loop_` line, block header and category trailer of the current
+source are those of `serializeSingle`, `serializeLooped`, `blockSerialize`, `catBlockText`; the order of the
+`raise` statements in `CIFCategory.serialize` is the order of the model's refusals. -/
+theorem C06_gen_writer_consts :
+    Gen.C06.keyPartsSingle = ["_", "."] ∧ Gen.C06.keyPartsLooped = ["_", ".", " "] ∧
+    (∀ name cols, serializeSingle name cols =
+      List.zipWith (fun key kv => strip (ljust (maxLen (cols.map (fun kv => '_' :: name ++ '.' :: kv.1)) + Gen.C06.singlePad) key ++ escape kv.2))
+        (cols.map (fun kv => '_' :: name ++ '.' :: kv.1)) cols) ∧
+    Gen.C06.loopedPad = 1 ∧ Gen.C06.unicodeCharSize = 4 ∧ Gen.C06.loopHeader.toList = sLoop ∧ Gen.C06.loopedLineInit = "" ∧
+    Gen.C06.blockHeaderParts.map String.toList = [sData, ['\n', '#', '\n']] ∧ Gen.C06.catTrailer.toList = ['#', '\n'] ∧
+    Gen.C06.blockJoin = "" ∧ Gen.C06.fileJoin = ["", ""] ∧ Gen.C06.elementJoin = ["\n", "\n"] ∧
+    Gen.C06.categoryLineEnd = [".", "", "\n"] ∧ Gen.C06.categoryChecksInts = [0, 1] ∧
+    Gen.C06.categoryRaises = ["SerializationError", "ValueError", "SerializationError", "SerializationError", "ValueError"] := by
+  refine ⟨rfl, rfl, fun _ _ => rfl, rfl, rfl, by decide, rfl, by decide, by decide, rfl, rfl, rfl, rfl, rfl, rfl⟩
+
+/-- **Mask table.**  `.` ↦ INAPPLICABLE and `?` ↦ MISSING on reading, the inverse on writing, and the enum
+values are the numbers `maskOf` uses. -/
+theorem C06_gen_masks :
+    Gen.C06.maskInferPairs = [[".", "INAPPLICABLE"], ["?", "MISSING"]] ∧
+    Gen.C06.maskRenderPairs = [["INAPPLICABLE", "."], ["MISSING", "?"]] ∧
+    Gen.C06.maskNames.zip Gen.C06.maskValues = [("PRESENT", 0), ("INAPPLICABLE", 1), ("MISSING", 2)] ∧
+    maskOf sDot = 1 ∧ maskOf sQm = 2 ∧ maskOf [] = 0 := by
+  refine ⟨rfl, rfl, by decide, by decide, by decide, by decide⟩
+
+/-- **The `'_'` key prefix of `BinaryCIFBlock`**: all five accessors add the same one-character prefix and
+both places that take it off use `removeprefix` with that prefix — the `encU`/`decU` of
+`C06_binary_block_refines`. -/
+theorem C06_gen_binary_prefix :
+    Gen.C06.binaryPrefixes = ["_", "_", "_", "_", "_"] ∧
+    Gen.C06.binaryStrip = [["removeprefix", "_"], ["removeprefix", "_"]] ∧
+    (∀ k, encU k = "_".toList ++ k) ∧ (∀ k, decU (encU k) = k) := by
+  refine ⟨rfl, rfl, fun _ => rfl, fun _ => rfl⟩
+
+/-- **The cached row count is forgotten in `__setitem__` and `__delitem__` of both category classes** (the sites
+`rcStep` resets the cache at). -/
+theorem C06_gen_rowcount_resets :
+    ["CIFCategory.__setitem__", "CIFCategory.__delitem__", "BinaryCIFCategory.__setitem__", "BinaryCIFCategory.__delitem__"].all
+      (fun m => Gen.C06.rowCountResets.contains m) = true := by decide
+
+/-! ### Shape of every anchored function = the snapshot the model was written against (`Proofs/C06Expected.lean`):
+default argument values, literals, comparison operators, order of the `raise` statements (which error wins), helpers
+called and their order. -/
+
+theorem C06_gen_shape_reader :
+    Gen.C06.fp_cifUarrayfy = Expected.fp_cifUarrayfy ∧
+    Gen.C06.fp_cifUcreate_element_dict = Expected.fp_cifUcreate_element_dict ∧
+    Gen.C06.fp_cifUescape = Expected.fp_cifUescape ∧
+    Gen.C06.fp_cifUis_empty = Expected.fp_cifUis_empty ∧
+    Gen.C06.fp_cifUis_loop_start = Expected.fp_cifUis_loop_start ∧
+    Gen.C06.fp_cifUmultiline = Expected.fp_cifUmultiline ∧
+    Gen.C06.fp_cifUparse_category_name = Expected.fp_cifUparse_category_name ∧
+    Gen.C06.fp_cifUparse_data_block_name = Expected.fp_cifUparse_data_block_name ∧
+    Gen.C06.fp_cifUsplit_one_line = Expected.fp_cifUsplit_one_line ∧
+    Gen.C06.fp_cifUto_single = Expected.fp_cifUto_single := by
+  refine ⟨?_, ?_, ?_, ?_, ?_, ?_, ?_, ?_, ?_, ?_⟩ <;> rfl
+
+theorem C06_gen_shape_column :
+    Gen.C06.fp_cif_CIFColumnU_eqU = Expected.fp_cif_CIFColumnU_eqU ∧
+    Gen.C06.fp_cif_CIFColumnU_initU = Expected.fp_cif_CIFColumnU_initU ∧
+    Gen.C06.fp_cif_CIFColumn_as_array = Expected.fp_cif_CIFColumn_as_array ∧
+    Gen.C06.fp_cif_CIFColumn_as_item = Expected.fp_cif_CIFColumn_as_item ∧
+    Gen.C06.fp_cif_CIFDataU_eqU = Expected.fp_cif_CIFDataU_eqU ∧
+    Gen.C06.fp_cif_CIFDataU_initU = Expected.fp_cif_CIFDataU_initU ∧
+    Gen.C06.fp_cif_UNICODE_CHAR_SIZE = Expected.fp_cif_UNICODE_CHAR_SIZE := by
+  refine ⟨?_, ?_, ?_, ?_, ?_, ?_, ?_⟩ <;> rfl
+
+theorem C06_gen_shape_category :
+    Gen.C06.fp_cif_CIFCategoryU_containsU = Expected.fp_cif_CIFCategoryU_containsU ∧
+    Gen.C06.fp_cif_CIFCategoryU_delitemU = Expected.fp_cif_CIFCategoryU_delitemU ∧
+    Gen.C06.fp_cif_CIFCategoryU_eqU = Expected.fp_cif_CIFCategoryU_eqU ∧
+    Gen.C06.fp_cif_CIFCategoryU_getitemU = Expected.fp_cif_CIFCategoryU_getitemU ∧
+    Gen.C06.fp_cif_CIFCategoryU_initU = Expected.fp_cif_CIFCategoryU_initU ∧
+    Gen.C06.fp_cif_CIFCategoryU_iterU = Expected.fp_cif_CIFCategoryU_iterU ∧
+    Gen.C06.fp_cif_CIFCategoryU_lenU = Expected.fp_cif_CIFCategoryU_lenU ∧
+    Gen.C06.fp_cif_CIFCategoryU_setitemU = Expected.fp_cif_CIFCategoryU_setitemU ∧
+    Gen.C06.fp_cif_CIFCategoryUdeserialize_looped = Expected.fp_cif_CIFCategoryUdeserialize_looped ∧
+    Gen.C06.fp_cif_CIFCategoryUdeserialize_single = Expected.fp_cif_CIFCategoryUdeserialize_single ∧
+    Gen.C06.fp_cif_CIFCategoryUserialize_looped = Expected.fp_cif_CIFCategoryUserialize_looped ∧
+    Gen.C06.fp_cif_CIFCategoryUserialize_single = Expected.fp_cif_CIFCategoryUserialize_single ∧
+    Gen.C06.fp_cif_CIFCategory_deserialize = Expected.fp_cif_CIFCategory_deserialize ∧
+    Gen.C06.fp_cif_CIFCategory_row_count = Expected.fp_cif_CIFCategory_row_count ∧
+    Gen.C06.fp_cif_CIFCategory_serialize = Expected.fp_cif_CIFCategory_serialize := by
+  refine ⟨?_, ?_, ?_, ?_, ?_, ?_, ?_, ?_, ?_, ?_, ?_, ?_, ?_, ?_, ?_⟩ <;> rfl
+
+theorem C06_gen_shape_block :
+    Gen.C06.fp_cif_CIFBlockU_containsU = Expected.fp_cif_CIFBlockU_containsU ∧
+    Gen.C06.fp_cif_CIFBlockU_delitemU = Expected.fp_cif_CIFBlockU_delitemU ∧
+    Gen.C06.fp_cif_CIFBlockU_eqU = Expected.fp_cif_CIFBlockU_eqU ∧
+    Gen.C06.fp_cif_CIFBlockU_getitemU = Expected.fp_cif_CIFBlockU_getitemU ∧
+    Gen.C06.fp_cif_CIFBlockU_initU = Expected.fp_cif_CIFBlockU_initU ∧
+    Gen.C06.fp_cif_CIFBlockU_iterU = Expected.fp_cif_CIFBlockU_iterU ∧
+    Gen.C06.fp_cif_CIFBlockU_lenU = Expected.fp_cif_CIFBlockU_lenU ∧
+    Gen.C06.fp_cif_CIFBlockU_setitemU = Expected.fp_cif_CIFBlockU_setitemU ∧
+    Gen.C06.fp_cif_CIFBlock_deserialize = Expected.fp_cif_CIFBlock_deserialize ∧
+    Gen.C06.fp_cif_CIFBlock_serialize = Expected.fp_cif_CIFBlock_serialize := by
+  refine ⟨?_, ?_, ?_, ?_, ?_, ?_, ?_, ?_, ?_, ?_⟩ <;> rfl
+
+theorem C06_gen_shape_file :
+    Gen.C06.fp_cif_CIFFileU_containsU = Expected.fp_cif_CIFFileU_containsU ∧
+    Gen.C06.fp_cif_CIFFileU_copy_fillU = Expected.fp_cif_CIFFileU_copy_fillU ∧
+    Gen.C06.fp_cif_CIFFileU_delitemU = Expected.fp_cif_CIFFileU_delitemU ∧
+    Gen.C06.fp_cif_CIFFileU_eqU = Expected.fp_cif_CIFFileU_eqU ∧
+    Gen.C06.fp_cif_CIFFileU_getitemU = Expected.fp_cif_CIFFileU_getitemU ∧
+    Gen.C06.fp_cif_CIFFileU_initU = Expected.fp_cif_CIFFileU_initU ∧
+    Gen.C06.fp_cif_CIFFileU_iterU = Expected.fp_cif_CIFFileU_iterU ∧
+    Gen.C06.fp_cif_CIFFileU_lenU = Expected.fp_cif_CIFFileU_lenU ∧
+    Gen.C06.fp_cif_CIFFileU_setitemU = Expected.fp_cif_CIFFileU_setitemU ∧
+    Gen.C06.fp_cif_CIFFile_block = Expected.fp_cif_CIFFile_block ∧
+    Gen.C06.fp_cif_CIFFile_deserialize = Expected.fp_cif_CIFFile_deserialize ∧
+    Gen.C06.fp_cif_CIFFile_lines = Expected.fp_cif_CIFFile_lines ∧
+    Gen.C06.fp_cif_CIFFile_read = Expected.fp_cif_CIFFile_read ∧
+    Gen.C06.fp_cif_CIFFile_serialize = Expected.fp_cif_CIFFile_serialize ∧
+    Gen.C06.fp_cif_CIFFile_write = Expected.fp_cif_CIFFile_write := by
+  refine ⟨?_, ?_, ?_, ?_, ?_, ?_, ?_, ?_, ?_, ?_, ?_, ?_, ?_, ?_, ?_⟩ <;> rfl
+
+theorem C06_gen_shape_component :
+    Gen.C06.fp_component_MaskValue = Expected.fp_component_MaskValue ∧
+    Gen.C06.fp_componentUHierarchicalContainerU_containsU = Expected.fp_componentUHierarchicalContainerU_containsU ∧
+    Gen.C06.fp_componentUHierarchicalContainerU_delitemU = Expected.fp_componentUHierarchicalContainerU_delitemU ∧
+    Gen.C06.fp_componentUHierarchicalContainerU_eqU = Expected.fp_componentUHierarchicalContainerU_eqU ∧
+    Gen.C06.fp_componentUHierarchicalContainerU_getitemU = Expected.fp_componentUHierarchicalContainerU_getitemU ∧
+    Gen.C06.fp_componentUHierarchicalContainerU_initU = Expected.fp_componentUHierarchicalContainerU_initU ∧
+    Gen.C06.fp_componentUHierarchicalContainerU_iterU = Expected.fp_componentUHierarchicalContainerU_iterU ∧
+    Gen.C06.fp_componentUHierarchicalContainerU_lenU = Expected.fp_componentUHierarchicalContainerU_lenU ∧
+    Gen.C06.fp_componentUHierarchicalContainerU_setitemU = Expected.fp_componentUHierarchicalContainerU_setitemU ∧
+    Gen.C06.fp_componentUHierarchicalContainerUdeserialize_elements = Expected.fp_componentUHierarchicalContainerUdeserialize_elements ∧
+    Gen.C06.fp_componentUHierarchicalContainerUserialize_elements = Expected.fp_componentUHierarchicalContainerUserialize_elements := by
+  refine ⟨?_, ?_, ?_, ?_, ?_, ?_, ?_, ?_, ?_, ?_, ?_⟩ <;> rfl
+
+theorem C06_gen_shape_bcif_column :
+    Gen.C06.fp_bcif_BinaryCIFColumnU_eqU = Expected.fp_bcif_BinaryCIFColumnU_eqU ∧
+    Gen.C06.fp_bcif_BinaryCIFColumnU_initU = Expected.fp_bcif_BinaryCIFColumnU_initU ∧
+    Gen.C06.fp_bcif_BinaryCIFColumn_as_array = Expected.fp_bcif_BinaryCIFColumn_as_array ∧
+    Gen.C06.fp_bcif_BinaryCIFColumn_as_item = Expected.fp_bcif_BinaryCIFColumn_as_item ∧
+    Gen.C06.fp_bcif_BinaryCIFColumn_deserialize = Expected.fp_bcif_BinaryCIFColumn_deserialize ∧
+    Gen.C06.fp_bcif_BinaryCIFColumn_serialize = Expected.fp_bcif_BinaryCIFColumn_serialize ∧
+    Gen.C06.fp_bcif_BinaryCIFDataU_eqU = Expected.fp_bcif_BinaryCIFDataU_eqU ∧
+    Gen.C06.fp_bcif_BinaryCIFDataU_initU = Expected.fp_bcif_BinaryCIFDataU_initU ∧
+    Gen.C06.fp_bcif_BinaryCIFData_deserialize = Expected.fp_bcif_BinaryCIFData_deserialize ∧
+    Gen.C06.fp_bcif_BinaryCIFData_serialize = Expected.fp_bcif_BinaryCIFData_serialize := by
+  refine ⟨?_, ?_, ?_, ?_, ?_, ?_, ?_, ?_, ?_, ?_⟩ <;> rfl
+
+theorem C06_gen_shape_bcif_containers :
+    Gen.C06.fp_bcif_BinaryCIFBlockU_containsU = Expected.fp_bcif_BinaryCIFBlockU_containsU ∧
+    Gen.C06.fp_bcif_BinaryCIFBlockU_delitemU = Expected.fp_bcif_BinaryCIFBlockU_delitemU ∧
+    Gen.C06.fp_bcif_BinaryCIFBlockU_getitemU = Expected.fp_bcif_BinaryCIFBlockU_getitemU ∧
+    Gen.C06.fp_bcif_BinaryCIFBlockU_initU = Expected.fp_bcif_BinaryCIFBlockU_initU ∧
+    Gen.C06.fp_bcif_BinaryCIFBlockU_iterU = Expected.fp_bcif_BinaryCIFBlockU_iterU ∧
+    Gen.C06.fp_bcif_BinaryCIFBlockU_setitemU = Expected.fp_bcif_BinaryCIFBlockU_setitemU ∧
+    Gen.C06.fp_bcif_BinaryCIFBlock_deserialize = Expected.fp_bcif_BinaryCIFBlock_deserialize ∧
+    Gen.C06.fp_bcif_BinaryCIFBlock_serialize = Expected.fp_bcif_BinaryCIFBlock_serialize ∧
+    Gen.C06.fp_bcif_BinaryCIFCategoryU_delitemU = Expected.fp_bcif_BinaryCIFCategoryU_delitemU ∧
+    Gen.C06.fp_bcif_BinaryCIFCategoryU_initU = Expected.fp_bcif_BinaryCIFCategoryU_initU ∧
+    Gen.C06.fp_bcif_BinaryCIFCategoryU_setitemU = Expected.fp_bcif_BinaryCIFCategoryU_setitemU ∧
+    Gen.C06.fp_bcif_BinaryCIFCategory_deserialize = Expected.fp_bcif_BinaryCIFCategory_deserialize ∧
+    Gen.C06.fp_bcif_BinaryCIFCategory_row_count = Expected.fp_bcif_BinaryCIFCategory_row_count ∧
+    Gen.C06.fp_bcif_BinaryCIFCategory_serialize = Expected.fp_bcif_BinaryCIFCategory_serialize ∧
+    Gen.C06.fp_bcif_BinaryCIFFileU_copy_fillU = Expected.fp_bcif_BinaryCIFFileU_copy_fillU ∧
+    Gen.C06.fp_bcif_BinaryCIFFileU_initU = Expected.fp_bcif_BinaryCIFFileU_initU ∧
+    Gen.C06.fp_bcif_BinaryCIFFile_block = Expected.fp_bcif_BinaryCIFFile_block ∧
+    Gen.C06.fp_bcif_BinaryCIFFile_deserialize = Expected.fp_bcif_BinaryCIFFile_deserialize ∧
+    Gen.C06.fp_bcif_BinaryCIFFile_read = Expected.fp_bcif_BinaryCIFFile_read ∧
+    Gen.C06.fp_bcif_BinaryCIFFile_serialize = Expected.fp_bcif_BinaryCIFFile_serialize ∧
+    Gen.C06.fp_bcif_BinaryCIFFile_write = Expected.fp_bcif_BinaryCIFFile_write := by
+  refine ⟨?_, ?_, ?_, ?_, ?_, ?_, ?_, ?_, ?_, ?_, ?_, ?_, ?_, ?_, ?_, ?_, ?_, ?_, ?_, ?_, ?_⟩ <;> rfl
 
 /-! ## Non-vacuity -/
 
